@@ -27,10 +27,11 @@ func TestMain(m *testing.M) {
 
 func genCase(rt *rapid.T) *Case {
 	c := &Case{
-		Create:   rapid.SliceOfN(rapid.SampledFrom([]int{0, 0, 0, 1, 1, 2}), 0, 3).Draw(rt, "create"),
-		SendErr:  rapid.SampledFrom([]int{0, 0, 1, 2}).Draw(rt, "sendErr"),
-		RecvMode: rapid.SampledFrom([]int{0, 0, 1, 1, 2}).Draw(rt, "recvMode"),
-		Deadline: rapid.SampledFrom([]int{0, 0, 0, 5}).Draw(rt, "deadline"),
+		Create:      rapid.SliceOfN(rapid.SampledFrom([]int{0, 0, 0, 1, 1, 2}), 0, 3).Draw(rt, "create"),
+		SendErr:     rapid.SampledFrom([]int{0, 0, 1, 2}).Draw(rt, "sendErr"),
+		RecvMode:    rapid.SampledFrom([]int{0, 0, 1, 1, 2}).Draw(rt, "recvMode"),
+		Deadline:    rapid.SampledFrom([]int{0, 0, 0, 5}).Draw(rt, "deadline"),
+		CancelAtErr: rapid.SampledFrom([]int{0, 0, 0, 1, 2, 3, 4, 5, 7}).Draw(rt, "cancelAtErr"),
 	}
 	calls := []string{"send", "send", "send", "recv", "recv", "recv", "close", "header", "trailer", "context", "cancel", "deliver", "deliver"}
 	c.Steps = rapid.SliceOfN(rapid.Custom(func(t *rapid.T) Step {
